@@ -1,7 +1,7 @@
 (* Property C19 - wait_until: the inner future/stream is untouched until the deadline resolves. *)
 From Coq Require Import List Arith Bool.
 Import ListNotations.
-Require Import ScanFull InstsFull Pass C11Groups PassProofs Monitors LivePass PassNoUnwind.
+Require Import ScanFull InstsFull Pass C11Groups PassProofs Monitors LivePass LiveWait PassNoUnwind.
 
 (* child 0 = the deadline, child 1 = the inner future (stream = false) or stream (stream = true).
    [Pw s t]: before the deadline resolved every child poll is (deadline, Pending) and nothing has been returned; afterwards the poll list is
@@ -41,6 +41,26 @@ Example C19_resolves_witness :
   let P := {| fires := []; answer := APend |} in let R v := {| fires := []; answer := AReady (ROk v) |} in
   map (fun k => results (strip (tr _ (wait_world false [[P; R 0]; [P; P; R 7]] (repeat OPollFresh k))))) [3; 4] = [[]; [OVals [7]]].
 Proof. vm_compute. reflexivity. Qed.
+
+(* ---- the stream form, from EVERY reachable state: deadline scripted Pending^k0 Ready, inner stream (Pending | Item)* End with `pends i` Pending answers.
+        After any schedule ops0 of polls and waker invocations, while the stream has not ended, any further schedule with more than k0 + pends i polls
+        contains - among its first k0 + pends i + 1 polls - one that returns the next result: an item of the inner stream or None (C19_wait_until_gate
+        says which, and that the inner stream was untouched before the deadline resolved). *)
+Theorem C19_wait_until_stream_next_result_under_any_schedule d i ops0 ops k0 :
+  goodf d = true -> goods i = true -> lead d = Some k0 -> sched ops0 -> sched ops ->
+  let w := wait_world true [d; i] ops0 in finished _ w = false -> k0 + pends i < npolls ops ->
+  exists ops1 p ops2, ops = ops1 ++ p :: ops2 /\ is_poll p = true /\ npolls ops1 <= k0 + pends i /\
+    let w1 := p_world ust wait_poll u_drops w ops1 in
+    finished _ w1 = false /\ dropped _ w1 = false /\ returns ust w1 (p_step ust wait_poll u_drops w1 p).
+Proof. exact (wait_until_stream_next_result d i ops0 ops k0). Qed.
+Print Assumptions C19_wait_until_stream_next_result_under_any_schedule.
+Example C19_stream_next_result_witness :
+  let P := {| fires := []; answer := APend |} in let I v := {| fires := []; answer := AItem v |} in let E := {| fires := []; answer := AEnd |} in
+  let d := [P; {| fires := []; answer := AReady (ROk 0) |}] in let i := [P; I 4; P; I 5; E] in
+  goodf d = true /\ goods i = true /\ lead d = Some 1 /\ pends i = 2 /\
+  map (fun k => results (strip (tr _ (wait_world true [d; i] (repeat OPollFresh k))))) [2; 3; 5; 6] =
+    [[]; [OSome None [4]]; [OSome None [4]; OSome None [5]]; [OSome None [4]; OSome None [5]; ONone]].
+Proof. vm_compute. repeat split; reflexivity. Qed.
 
 (* wait_until never unwinds by itself: an `EEndX` in the history implies that the deadline's or the inner's poll panicked *)
 Theorem C19_wait_until_unwinds_only_on_child_panic stream scs ops :
